@@ -45,20 +45,21 @@ def joinSp : List Bytes → Bytes
 
 /-! ## CRLF framing -/
 
+/-- Put a byte in front of a split result: it extends the first line, or the remainder when there is
+no complete line. -/
+def pushFront (x : UInt8) (r : List Bytes × Bytes) : List Bytes × Bytes :=
+  match r.1 with
+  | [] => ([], x :: r.2)
+  | l :: ls => ((x :: l) :: ls, r.2)
+
 /-- `(buffer + data).split(b'\r\n')` followed by `lines.pop(-1)`: the complete lines and the
 unterminated remainder (left-to-right, non-overlapping occurrences). -/
 def splitCRLF : Bytes → List Bytes × Bytes
   | [] => ([], [])
   | [x] => ([], [x])
   | x :: y :: t =>
-    if x = 13 ∧ y = 10 then
-      let r := splitCRLF t
-      ([] :: r.1, r.2)
-    else
-      let r := splitCRLF (y :: t)
-      match r.1 with
-      | [] => ([], x :: r.2)
-      | l :: ls => ((x :: l) :: ls, r.2)
+    if x = 13 ∧ y = 10 then ([] :: (splitCRLF t).1, (splitCRLF t).2)
+    else pushFront x (splitCRLF (y :: t))
 
 /-- `b'\r\n'.join(ls + [last])` -/
 def joinCRLF : List Bytes → Bytes → Bytes
